@@ -6,42 +6,42 @@ Open Scope string_scope.
 Definition one (n : string) := filter (fun fd => String.eqb (fn_name fd) n) eon_program.
 Eval vm_compute in (report eon_program (one "fast_nonMarkov_SIR")).
 Eval vm_compute in (dead_report eon_program (one "fast_nonMarkov_SIR")).
-Eval vm_compute in (report eon_program (one "fast_SIS")).
-Eval vm_compute in (dead_report eon_program (one "fast_SIS")).
+Eval vm_compute in (report eon_program (one "_get_NkNl_and_IC_as_arrays_")).
+Eval vm_compute in (dead_report eon_program (one "_get_NkNl_and_IC_as_arrays_")).
 Eval vm_compute in (report eon_program (one "_dSIR_effective_degree_")).
 Eval vm_compute in (dead_report eon_program (one "_dSIR_effective_degree_")).
-Eval vm_compute in (report eon_program (one "_process_trans_SIS_nonMarkov_")).
-Eval vm_compute in (dead_report eon_program (one "_process_trans_SIS_nonMarkov_")).
-Eval vm_compute in (report eon_program (one "EBCM_discrete")).
-Eval vm_compute in (dead_report eon_program (one "EBCM_discrete")).
-Eval vm_compute in (report eon_program (one "Attack_rate_discrete_from_graph")).
-Eval vm_compute in (dead_report eon_program (one "Attack_rate_discrete_from_graph")).
-Eval vm_compute in (report eon_program (one "SIS_effective_degree")).
-Eval vm_compute in (dead_report eon_program (one "SIS_effective_degree")).
+Eval vm_compute in (report eon_program (one "EBCM_discrete_from_graph")).
+Eval vm_compute in (dead_report eon_program (one "EBCM_discrete_from_graph")).
+Eval vm_compute in (report eon_program (one "SIS_heterogeneous_pairwise")).
+Eval vm_compute in (dead_report eon_program (one "SIS_heterogeneous_pairwise")).
+Eval vm_compute in (report eon_program (one "SIR_individual_based")).
+Eval vm_compute in (dead_report eon_program (one "SIR_individual_based")).
+Eval vm_compute in (report eon_program (one "SIS_compact_pairwise_from_graph")).
+Eval vm_compute in (dead_report eon_program (one "SIS_compact_pairwise_from_graph")).
 Eval vm_compute in (report eon_program (one "SIR_heterogeneous_meanfield")).
 Eval vm_compute in (dead_report eon_program (one "SIR_heterogeneous_meanfield")).
 Eval vm_compute in (report eon_program (one "_dSIR_compact_pairwise_")).
 Eval vm_compute in (dead_report eon_program (one "_dSIR_compact_pairwise_")).
-Eval vm_compute in (report eon_program (one "SIR_super_compact_pairwise_from_graph")).
-Eval vm_compute in (dead_report eon_program (one "SIR_super_compact_pairwise_from_graph")).
-Eval vm_compute in (report eon_program (one "_count_edge_types_")).
-Eval vm_compute in (dead_report eon_program (one "_count_edge_types_")).
-Eval vm_compute in (report eon_program (one "_dSIR_homogeneous_pairwise_")).
-Eval vm_compute in (dead_report eon_program (one "_dSIR_homogeneous_pairwise_")).
-Eval vm_compute in (report eon_program (one "get_Pnk")).
-Eval vm_compute in (dead_report eon_program (one "get_Pnk")).
-Eval vm_compute in (report eon_program (one "_dSIS_individual_based_")).
-Eval vm_compute in (dead_report eon_program (one "_dSIS_individual_based_")).
-Eval vm_compute in (report eon_program (one "SIS_pair_based_pure_IC")).
-Eval vm_compute in (dead_report eon_program (one "SIS_pair_based_pure_IC")).
-Eval vm_compute in (report eon_program (one "_dSIS_homogeneous_meanfield_")).
-Eval vm_compute in (dead_report eon_program (one "_dSIS_homogeneous_meanfield_")).
-Eval vm_compute in (report eon_program (one "_my_odeint_")).
-Eval vm_compute in (dead_report eon_program (one "_my_odeint_")).
+Eval vm_compute in (report eon_program (one "SIR_heterogeneous_pairwise_from_graph")).
+Eval vm_compute in (dead_report eon_program (one "SIR_heterogeneous_pairwise_from_graph")).
+Eval vm_compute in (report eon_program (one "SIR_compact_effective_degree")).
+Eval vm_compute in (dead_report eon_program (one "SIR_compact_effective_degree")).
+Eval vm_compute in (report eon_program (one "EBCM")).
+Eval vm_compute in (dead_report eon_program (one "EBCM")).
+Eval vm_compute in (report eon_program (one "SIR_compact_pairwise_from_graph")).
+Eval vm_compute in (dead_report eon_program (one "SIR_compact_pairwise_from_graph")).
+Eval vm_compute in (report eon_program (one "_dSIR_heterogeneous_meanfield_")).
+Eval vm_compute in (dead_report eon_program (one "_dSIR_heterogeneous_meanfield_")).
+Eval vm_compute in (report eon_program (one "_initialize_node_status_")).
+Eval vm_compute in (dead_report eon_program (one "_initialize_node_status_")).
+Eval vm_compute in (report eon_program (one "estimate_SIR_prob_size_from_dir_perc")).
+Eval vm_compute in (dead_report eon_program (one "estimate_SIR_prob_size_from_dir_perc")).
+Eval vm_compute in (report eon_program (one "get_PGFPrime")).
+Eval vm_compute in (dead_report eon_program (one "get_PGFPrime")).
 Eval vm_compute in (report eon_program (one "_out_component_")).
 Eval vm_compute in (dead_report eon_program (one "_out_component_")).
-Eval vm_compute in (report eon_program (one "EBCM_uniform_introduction")).
-Eval vm_compute in (dead_report eon_program (one "EBCM_uniform_introduction")).
+Eval vm_compute in (report eon_program (one "directed_percolate_network")).
+Eval vm_compute in (dead_report eon_program (one "directed_percolate_network")).
 Eval vm_compute in (report eon_program (one "EBCM_pref_mix_discrete_from_graph")).
 Eval vm_compute in (dead_report eon_program (one "EBCM_pref_mix_discrete_from_graph")).
 Eval vm_compute in (report eon_program (one "estimate_directed_SIR_prob_size")).
